@@ -737,9 +737,11 @@ def run_mon(case):
     # the pulse synchronisers into domain b: their 1-bit synchronised toggles, in creation order (reset, latch)
     syncs = cdc.LazyProbe(lambda: [m.o for m in box["reg"] if m.width == 1 and m.odomain == "b"])
     status = bench.Probe([getattr(mon, "_" + c).status for c in MON_COUNTERS])
+    # the latched counters on their way back to sys (plain multi-bit synchronisers), in creation order = MON_COUNTERS
+    latched = cdc.LazyProbe(lambda: [m.i for m in box["reg"] if m.width == cw and m.odomain == "sys"])
     registry = []
     box["reg"] = registry
-    tm, reg = cdc.run(top, {"sys": [drv, status], "b": [tr, syncs]}, inst, ["sys", "b"], case["meta"], registry=registry)
+    tm, reg = cdc.run(top, {"sys": [drv, status], "b": [tr, syncs, latched]}, inst, ["sys", "b"], case["meta"], registry=registry)
     cyc = tm.k
     cls = ["cw=%d" % cw] + cdc.edge_classes(inst)
     ctx = "stream.Monitor(count_width=%d, clock_domain='b'), edges=%r" % (cw, case["edges"])
@@ -777,6 +779,16 @@ def run_mon(case):
         if n_out[kd] != n_in[kd]:
             return bad("pulse-count", "%s: %d %s pulses entered in sys (>= 3 destination cycles apart), %d came out in the monitored domain"
                        % (ctx, n_in[kd], name, n_out[kd]), key="c05:monitor-pulses", cls=cls, cycles=cyc)
+    if case.get("strict_status") and len(latched.sigs) == len(MON_COUNTERS):
+        # NOT part of the generated search (the strategy never sets the flag): every word the status registers show, not
+        # only the settled one.  The latched counters return to sys through a plain multi-bit MultiReg - the use the
+        # BusSynchronizer docstring warns against - so a read in the cycle after a latch/reset lands can see a blend.
+        for n_, c in enumerate(MON_COUNTERS):
+            real = {0} | {row[n_] for row in latched.trace}
+            for t_, row in enumerate(status.trace):
+                if row[n_] not in real:
+                    return bad("status-transient", "%s: sys-cycle %d: %s status reads %d, the latched counter only ever held %s"
+                               % (ctx, t_, c, row[n_], sorted(real)[:24]), key="c05:monitor-status-blend", cls=cls, cycles=cyc)
     final = status.trace[-1]
     for c, got in zip(MON_COUNTERS, final):
         if got != lat[c]:
@@ -902,23 +914,23 @@ def run_ub(case):
 
 def subchecks():
     return [
-        Sub("cdc-stream", run_stream, strategy=st_stream_case, examples=(1000, 25000), timeout=(900, 20000),
+        Sub("cdc-stream", run_stream, strategy=st_stream_case, examples=(1280, 25000), timeout=(900, 20000),
             rule="ClockDomainCrossing / AsyncFIFO / UART FIFO: token sequence preserved under generated edge interleavings, "
                  "first-flop resolutions, handshake schedules and common-reset pulses"),
         Sub("cdc-stream-phases", run_stream, enum=enum_stream, exhaustive=True,
             rule="ClockDomainCrossing depth 4 (plain; buffered + common reset with a reset pulse): periodic clocks with periods in "
                  "{1,2,3,5}^2 x phase offsets x {never, always, half} forced resolutions"),
-        Sub("bus-synchronizer", run_bus, strategy=st_bus_case, examples=(800, 20000), timeout=(900, 20000),
+        Sub("bus-synchronizer", run_bus, strategy=st_bus_case, examples=(1200, 20000), timeout=(900, 20000),
             rule="BusSynchronizer: only real words, in order, input reflected after 2T+8; ratio <= 3, T >= 4R+3"),
-        Sub("axilite-cdc", run_axil, strategy=st_axil_case, examples=(240, 6000), timeout=(900, 20000),
+        Sub("axilite-cdc", run_axil, strategy=st_axil_case, examples=(288, 6000), timeout=(900, 20000),
             rule="AXILiteClockDomainCrossing: master agent in one scheduled domain, multi-accept memory slave in the other; all "
                  "operations complete, every request arrives once and unchanged, scoreboard right, hold monitors silent; "
                  "non-trivial additionally needs a read after a write to the same word"),
-        Sub("monitor-pulse", run_mon, strategy=st_mon_case, examples=(400, 10000), timeout=(900, 20000),
+        Sub("monitor-pulse", run_mon, strategy=st_mon_case, examples=(560, 10000), timeout=(900, 20000),
             rule="stream.Monitor(clock_domain != sys): reset/latch pulses >= 3 destination cycles apart arrive exactly once each; "
                  "latched token/overflow/underflow/packet counts read back in sys equal a model clocked by the observed pulses; "
                  "non-trivial = a forced first-flop resolution, >= 2 latches, >= 1 reset, a latch landing on a counting cycle"),
-        Sub("uartbone-cdc", run_ub, strategy=st_ub_case, examples=(96, 2500), timeout=(900, 20000),
+        Sub("uartbone-cdc", run_ub, strategy=st_ub_case, examples=(96, 2400), timeout=(900, 20000),
             rule="UARTBone(cd='b') with a registered byte-pipe PHY in b and a Wishbone memory in sys: write/read burst commands, "
                  "every response byte equals the memory model, final read-back of all words; non-trivial = forced resolution + a write"),
     ]
